@@ -260,6 +260,309 @@ fn faults_in_draws(max_k: usize) -> bool {
     ok
 }
 
+/// C03: a model with parameters integrates at least one step per draw whenever maxdepth >= 1
+/// (also with target_integration_time set), and the step size stays finite.
+fn min_one_step(targets: &[f64]) -> bool {
+    let mut ok = true;
+    for &t in targets {
+        let r = std::panic::catch_unwind(|| {
+            let (d, _) = density(3, usize::MAX, Fault::None);
+            let mut rng = rand::rngs::StdRng::seed_from_u64(3);
+            let s = DiagNutsSettings {
+                num_tune: 30,
+                num_draws: 10,
+                target_integration_time: Some(t),
+                ..Default::default()
+            };
+            let mut c = s.new_chain(0, CpuMath::new(d), &mut rng);
+            c.set_position(&[0.1, 0.2, 0.3]).unwrap();
+            let mut zero_steps = vec![];
+            let mut bad_step = None;
+            let mut moved = false;
+            let mut last: Option<Box<[f64]>> = None;
+            for i in 0..40 {
+                let (p, pr) = c.draw().unwrap();
+                if pr.num_steps == 0 {
+                    zero_steps.push(i);
+                }
+                if !pr.step_size.is_finite() && bad_step.is_none() {
+                    bad_step = Some(i);
+                }
+                if let Some(l) = &last {
+                    if l != &p {
+                        moved = true;
+                    }
+                }
+                last = Some(p);
+            }
+            (zero_steps, bad_step, moved)
+        });
+        match r {
+            Err(_) => {
+                println!("REPLAY min_one_step FAIL target_integration_time={t}: PANIC");
+                ok = false;
+            }
+            Ok((zero, bad, moved)) => {
+                if !zero.is_empty() || bad.is_some() {
+                    println!(
+                        "REPLAY min_one_step FAIL target_integration_time={t}: {} of 40 draws integrated 0 steps (first: draw {:?}); non-finite step size from draw {:?}; chain moved: {moved}",
+                        zero.len(),
+                        zero.first(),
+                        bad
+                    );
+                    ok = false;
+                }
+            }
+        }
+    }
+    if ok {
+        println!("REPLAY min_one_step PASS target_integration_time in {:?}", targets);
+    }
+    ok
+}
+
+/// C14.3 / F5: the HashMap backend has to finalise a trace that contains String-typed variables
+/// (every NUTS run records the string statistic `divergence_message`).  Runs the real `Sampler`
+/// with `HashMapConfig` through the public API and checks that finalisation succeeds and that
+/// every non-event column holds num_tune + num_draws entries (warmup before sampling draws).
+struct HmModel {
+    dim: usize,
+}
+impl nuts_rs::Model for HmModel {
+    type Math<'m>
+        = CpuMath<D>
+    where
+        Self: 'm;
+    fn math<R: rand::Rng + ?Sized>(&self, _r: &mut R) -> anyhow::Result<Self::Math<'_>> {
+        let (d, _) = density(self.dim, usize::MAX, Fault::None);
+        Ok(CpuMath::new(d))
+    }
+    fn init_position<R: rand::Rng + ?Sized>(&self, _r: &mut R, p: &mut [f64]) -> anyhow::Result<()> {
+        for (i, x) in p.iter_mut().enumerate() {
+            *x = 0.1 * (i as f64 + 1.0);
+        }
+        Ok(())
+    }
+}
+
+fn hashmap_string(cases: &[(u64, u64)]) -> bool {
+    use nuts_rs::{HashMapConfig, HashMapValue, Sampler, SamplerWaitResult};
+    let mut ok = true;
+    for &(num_tune, num_draws) in cases {
+        let r = std::panic::catch_unwind(|| -> anyhow::Result<Vec<(Vec<String>, Vec<(String, usize)>)>> {
+            let settings = DiagNutsSettings {
+                num_tune,
+                num_draws,
+                num_chains: 2,
+                seed: 42,
+                ..Default::default()
+            };
+            let mut sampler = Some(Sampler::new(HmModel { dim: 3 }, settings, HashMapConfig::new(), 1, None)?);
+            let traces = loop {
+                match sampler.take().unwrap().wait_timeout(std::time::Duration::from_millis(100)) {
+                    SamplerWaitResult::Trace(t) => break t,
+                    SamplerWaitResult::Timeout(s) => sampler = Some(s),
+                    SamplerWaitResult::Err(e, _) => return Err(e),
+                }
+            };
+            let mut out = vec![];
+            for t in traces.iter() {
+                let mut strings = vec![];
+                let mut lens = vec![];
+                for (name, v) in t.stats.iter().chain(t.draws.iter()) {
+                    match v {
+                        HashMapValue::String(s) => {
+                            strings.push(name.clone());
+                            let _ = s;
+                        }
+                        HashMapValue::F64(x) => lens.push((name.clone(), x.len())),
+                        HashMapValue::F32(x) => lens.push((name.clone(), x.len())),
+                        HashMapValue::Bool(x) => lens.push((name.clone(), x.len())),
+                        HashMapValue::I64(x) => lens.push((name.clone(), x.len())),
+                        HashMapValue::U64(x) => lens.push((name.clone(), x.len())),
+                    }
+                }
+                out.push((strings, lens));
+            }
+            Ok(out)
+        });
+        match r {
+            Err(payload) => {
+                let msg = payload
+                    .downcast_ref::<String>()
+                    .cloned()
+                    .or_else(|| payload.downcast_ref::<&str>().map(|s| s.to_string()))
+                    .unwrap_or_else(|| "<non-string panic payload>".to_string());
+                println!("REPLAY hashmap_string FAIL num_tune={num_tune} num_draws={num_draws}: PANIC in Sampler/HashMapConfig finalisation: {msg}");
+                ok = false;
+            }
+            Ok(Err(e)) => {
+                println!("REPLAY hashmap_string FAIL num_tune={num_tune} num_draws={num_draws}: sampler returned Err: {e:#}");
+                ok = false;
+            }
+            Ok(Ok(chains)) => {
+                let total = (num_tune + num_draws) as usize;
+                for (c, (strings, lens)) in chains.iter().enumerate() {
+                    if strings.is_empty() {
+                        println!("REPLAY hashmap_string FAIL num_tune={num_tune} num_draws={num_draws}: chain {c}: no String-typed column in the finalised trace");
+                        ok = false;
+                    }
+                    // scalar per-draw statistics that every draw records
+                    for key in ["depth", "n_steps", "energy", "diverging"] {
+                        if let Some((_, n)) = lens.iter().find(|(k, _)| k == key) {
+                            if *n != total {
+                                println!("REPLAY hashmap_string FAIL num_tune={num_tune} num_draws={num_draws}: chain {c}: column {key} has {n} entries, expected {total}");
+                                ok = false;
+                            }
+                        }
+                    }
+                }
+                if std::env::var("REPLAY_VERBOSE").is_ok() {
+                    eprintln!("num_tune={num_tune} num_draws={num_draws}: {:?}", chains);
+                }
+            }
+        }
+    }
+    if ok {
+        println!("REPLAY hashmap_string PASS (num_tune, num_draws) in {:?}", cases);
+    }
+    ok
+}
+
+/// C13 (F4): an unrecoverable density error raised DURING SAMPLING (after initialisation succeeded)
+/// in one or several chains of the real parallel `Sampler` must come back from
+/// `wait_timeout` as `SamplerWaitResult::Err`.  It must not panic the calling thread (today:
+/// `sampler.expanded_draw().unwrap()` in the chain closure panics, rayon re-raises the panic in the
+/// controller, `abort()` re-raises it in the caller), report success, or hang.
+struct ChainFaultStats {
+    /// number of `Model::math` calls so far (call 0 is the controller's, calls 1.. are the chains')
+    math_calls: AtomicUsize,
+    init_calls: AtomicUsize,
+    /// (math-call ordinal, evaluation counter of that density)
+    counters: std::sync::Mutex<Vec<(usize, Arc<AtomicUsize>)>>,
+}
+struct ChainFaultModel {
+    dim: usize,
+    fail_at: usize,
+    /// math-call ordinals whose density raises `Fault::Fatal` at evaluation `fail_at`
+    faulty: Vec<usize>,
+    stats: Arc<ChainFaultStats>,
+}
+impl nuts_rs::Model for ChainFaultModel {
+    type Math<'m>
+        = CpuMath<D>
+    where
+        Self: 'm;
+    fn math<R: rand::Rng + ?Sized>(&self, _r: &mut R) -> anyhow::Result<Self::Math<'_>> {
+        let ord = self.stats.math_calls.fetch_add(1, Ordering::SeqCst);
+        let k = if self.faulty.contains(&ord) { self.fail_at } else { usize::MAX };
+        let (d, c) = density(self.dim, k, Fault::Fatal);
+        self.stats.counters.lock().unwrap().push((ord, c));
+        Ok(CpuMath::new(d))
+    }
+    fn init_position<R: rand::Rng + ?Sized>(&self, _r: &mut R, p: &mut [f64]) -> anyhow::Result<()> {
+        self.stats.init_calls.fetch_add(1, Ordering::SeqCst);
+        for (i, x) in p.iter_mut().enumerate() {
+            *x = 0.1 * (i as f64 + 1.0);
+        }
+        Ok(())
+    }
+}
+
+fn chain_unwrap() -> bool {
+    use nuts_rs::{HashMapConfig, Sampler, SamplerWaitResult};
+    use std::time::{Duration, Instant};
+    enum Outcome {
+        Err(String),
+        Success,
+        Hang,
+    }
+    let mut ok = true;
+    // (number of chains, faulty math-call ordinals, evaluation index of the fault)
+    let cases: Vec<(usize, Vec<usize>, usize)> = vec![
+        (1, vec![1], 60),            // single chain, fault during warm-up
+        (1, vec![1], 2500),          // single chain, fault during the sampling phase
+        (4, vec![2], 60),            // one faulty chain among healthy ones
+        (4, vec![1, 2, 3, 4], 2500), // every chain faulty
+    ];
+    for (chains, faulty, k) in cases {
+        let stats = Arc::new(ChainFaultStats {
+            math_calls: AtomicUsize::new(0),
+            init_calls: AtomicUsize::new(0),
+            counters: std::sync::Mutex::new(vec![]),
+        });
+        let st = stats.clone();
+        let fl = faulty.clone();
+        let r = std::panic::catch_unwind(std::panic::AssertUnwindSafe(move || {
+            let settings = DiagNutsSettings {
+                num_tune: 100,
+                num_draws: 1500,
+                num_chains: chains,
+                seed: 42,
+                ..Default::default()
+            };
+            let model = ChainFaultModel { dim: 3, fail_at: k, faulty: fl, stats: st };
+            let mut sampler = match Sampler::new(model, settings, HashMapConfig::new(), 4, None) {
+                Ok(s) => s,
+                Err(e) => return Outcome::Err(format!("Sampler::new: {e:#}")),
+            };
+            // watchdog: give up after 60 s
+            let deadline = Instant::now() + Duration::from_secs(60);
+            loop {
+                match sampler.wait_timeout(Duration::from_millis(200)) {
+                    SamplerWaitResult::Trace(_) => return Outcome::Success,
+                    SamplerWaitResult::Err(e, _) => return Outcome::Err(format!("{e:#}")),
+                    SamplerWaitResult::Timeout(s) => {
+                        if Instant::now() > deadline {
+                            std::mem::forget(s);
+                            return Outcome::Hang;
+                        }
+                        sampler = s;
+                    }
+                }
+            }
+        }));
+        let reached = stats
+            .counters
+            .lock()
+            .unwrap()
+            .iter()
+            .any(|(ord, c)| faulty.contains(ord) && c.load(Ordering::SeqCst) > k);
+        let inits = stats.init_calls.load(Ordering::SeqCst);
+        let tag = format!("chains={chains} faulty_math_calls={faulty:?} fatal_at_evaluation={k} init_position_calls={inits}");
+        match r {
+            Err(_) => {
+                println!("REPLAY chain_unwrap FAIL {tag}: the thread calling wait_timeout/abort PANICKED (unrecoverable density error not surfaced as Err)");
+                ok = false;
+            }
+            Ok(Outcome::Success) => {
+                if reached {
+                    println!("REPLAY chain_unwrap FAIL {tag}: fault was raised but the sampler reported SUCCESS");
+                } else {
+                    println!("REPLAY chain_unwrap FAIL {tag}: fault index never reached (driver mis-sized), nothing was tested");
+                }
+                ok = false;
+            }
+            Ok(Outcome::Hang) => {
+                println!("REPLAY chain_unwrap FAIL {tag}: no result after 60 s (hang)");
+                ok = false;
+            }
+            Ok(Outcome::Err(msg)) => {
+                if !reached {
+                    println!("REPLAY chain_unwrap FAIL {tag}: Err({msg}) although the fault index was never reached");
+                    ok = false;
+                } else if std::env::var("REPLAY_VERBOSE").is_ok() {
+                    eprintln!("{tag}: surfaced as Err: {msg}");
+                }
+            }
+        }
+    }
+    if ok {
+        println!("REPLAY chain_unwrap PASS unrecoverable density error during sampling surfaced as SamplerWaitResult::Err (1 and 4 chains, warm-up and sampling phase)");
+    }
+    ok
+}
+
 fn main() {
     let args: Vec<String> = std::env::args().collect();
     let cmd = args.get(1).map(|s| s.as_str()).unwrap_or("");
@@ -276,6 +579,25 @@ fn main() {
         }
         "fatal_in_init" => fatal_in_init(args.get(2).and_then(|s| s.parse().ok()).unwrap_or(8)),
         "faults_in_draws" => faults_in_draws(args.get(2).and_then(|s| s.parse().ok()).unwrap_or(40)),
+        "min_one_step" => {
+            let ts: Vec<f64> = if args.len() > 2 {
+                args[2..].iter().filter_map(|s| s.parse().ok()).collect()
+            } else {
+                vec![10.0, 1.0, 0.05, 0.001]
+            };
+            min_one_step(&ts)
+        }
+        "hashmap_string" => {
+            // optional arguments: pairs "num_tune num_draws"
+            let nums: Vec<u64> = args[2.min(args.len())..].iter().filter_map(|s| s.parse().ok()).collect();
+            let cases: Vec<(u64, u64)> = if nums.len() >= 2 {
+                nums.chunks_exact(2).map(|c| (c[0], c[1])).collect()
+            } else {
+                vec![(10, 5), (0, 3), (4, 0)]
+            };
+            hashmap_string(&cases)
+        }
+        "chain_unwrap" => chain_unwrap(),
         _ => {
             eprintln!("usage: nuts-replay tuning_flag <nuts|lowrank|mclmc> [num_tune..] | fatal_in_init [k] | faults_in_draws [k]");
             std::process::exit(2);
